@@ -46,6 +46,7 @@ var ugSkeleton = []ugChunk{
 	{"d2", "type d2 struct {\n\td4\n}"},
 	{"d3", "type d3 struct {\n\td4\n}"},
 	{"d4", "type d4 struct {\n\tID int\n}"},
+	{"k1", "const (\n\tk1 = iota\n\tk2\n\tk3\n)"},
 	{"use", "func use(...any) {}"},
 	{"Exported", "func Exported() {\n\t%S\n\t%S\n}"},
 }
@@ -72,6 +73,12 @@ var ugForms = []string{
 	"use(func() int { return f2() })",
 	"var t t1; mv := t.m1; mv()",
 	"var t t1; t.fb = \"\"",
+	"type loc struct{ t2 }; var i i2 = loc{}; use(i)",
+	"switch v := f2(); y := any(v).(type) { case int: use(y) }",
+	"use([]*t3{{1}})",
+	"var t t1; use(t.t2.ga)",
+	"use(k2)",
+	"var m map[t3]*t2; use(m)",
 }
 
 // ugSwap, when set, names a chunk whose lines a and b are exchanged (the
